@@ -344,25 +344,76 @@ Theorem drop_stage_merges_equal_streams :
 Proof. exact metric_drop_witness. Qed.
 Print Assumptions drop_stage_merges_equal_streams.
 
-(* A vector aggregation WITHOUT a by/without clause. By the definition (LogQL / PromQL) `sum(rate(...))` aggregates over all
-   series into ONE series with the empty label set (metric_ref_def); the code keeps one series per stream (AggOpPlanner groups by
-   the stream fingerprint, no regrouping select is planned; the in-process engine does the same), and metric_ref - the reference of
-   the theorems above - follows the code there. The statement "the planned selects compute the DEFINITION" is therefore false:
-   sum(rate({a="b"}[5s])) over the streams {a="b",c="1"}, {a="b",c="2"} gives two series with 0.2 each, the definition one
-   series {} with 0.4 (finding agg-without-grouping-keeps-streams). *)
-Theorem vector_aggregation_without_grouping_refuted :
-  forall re_match parse_float json_get hash_labels fp to_float quantile_o varpop stddevpop,
-  exists p, plan_metric ng_script true = Some p /\ analyze_m15 ng_script = false /\ script_ok ng_script /\
+(* ---------- a vector aggregation WITHOUT grouping clause (round 4: defect agg-without-grouping-keeps-streams repaired) ----------
+   By the property text a vector aggregation without by/without groups by the EMPTY label set: sum(rate(...)) is ONE series {}.
+   Both engines regrouped only where a clause is written (the aggregate was taken per stream and had no effect; rounds 1-3:
+   vector_aggregation_without_grouping_refuted). The reader's entry point logql_transpiler_v2.Plan now gives such an aggregation
+   the clause `by ()` before either engine plans it (groupByNothing = LogqlPlan.norm_script, tied on every generated query), so
+   the correctness theorems hold against the DEFINITION metric_ref_def of the script AS WRITTEN, for every script: *)
+Theorem logql_metric_correct_definition :
+  forall (fp : lmap -> N) (to_float : string -> Qc) (quantile_o : string -> list Qc -> Qc) (varpop stddevpop : list Qc -> Qc),
+  (forall a b, fp a = fp b -> a = b) ->
+  forall c base s fin p,
+  analyze_m15 s = false -> plan_metric (norm_script s) fin = Some p -> script_ok s ->
+  0 < c_step_ns c -> consistent base -> nonneg base ->
+  option_map (map strip) (sem fp to_float quantile_o varpop stddevpop p c base) =
+  metric_ref_def to_float quantile_o varpop stddevpop s c (map entry_of base).
+Proof. exact metric_correct_definition. Qed.
+Print Assumptions logql_metric_correct_definition.
+
+Theorem logql_metric_correct_shortcut_definition :
+  forall (fp : lmap -> N) (to_float : string -> Qc) (quantile_o : string -> list Qc -> Qc) (varpop stddevpop : list Qc -> Qc),
+  (forall a b, fp a = fp b -> a = b) ->
+  forall c base s fin p,
+  analyze_m15 s = true -> plan_metric (norm_script s) fin = Some p ->
+  (match s with SLra _ | SAgg _ => True | _ => False end) ->
+  0 < c_step_ns c -> consistent base -> nonneg base ->
+  option_map (map strip) (sem fp to_float quantile_o varpop stddevpop p c base) =
+  metric_ref_def to_float quantile_o varpop stddevpop s c (map entry_of base).
+Proof. exact shortcut_metric_correct_definition. Qed.
+Print Assumptions logql_metric_correct_shortcut_definition.
+
+Theorem logql_metric_correct_from_stored_data_definition :
+  forall re_match parse_float json_get (hash_labels : LogqlSem.labels -> Z),
+  (forall a b, hash_labels a = hash_labels b -> a = b) -> (forall a, 0 <= hash_labels a) ->
+  forall (fp : lmap -> N) (to_float : string -> Qc) (quantile_o : string -> list Qc -> Qc) (varpop stddevpop : list Qc -> Qc),
+  (forall a b, fp a = fp b -> a = b) ->
+  forall c d s fin p base,
+  analyze_m15 s = false -> plan_metric (norm_script s) fin = Some p -> script_ok s -> 0 < c_step_ns c ->
+  db_ok c d -> fp_of_labels_ok d -> 0 <= c_from_ns c ->
+  Permutation.Permutation base (base_of re_match parse_float json_get hash_labels s c d) ->
+  option_map (map strip) (sem fp to_float quantile_o varpop stddevpop p c base)
+    = metric_ref_def to_float quantile_o varpop stddevpop s c (map entry_of base)
+  /\ Permutation.Permutation (map entry_of base) (map entry_of_out (log_lines re_match parse_float json_get hash_labels s c d)).
+Proof. exact metric_correct_db_definition. Qed.
+Print Assumptions logql_metric_correct_from_stored_data_definition.
+
+(* the definition of the script as written IS the reference of the script the planners get; the script they get always carries
+   a grouping (Example metric_correct_definition_hyp: the hypotheses are met by sum(rate({a="b"}[5s])), which norm_script changes) *)
+Theorem definition_is_reference_of_planned_script :
+  forall to_float quantile_o varpop stddevpop s c es,
+  metric_ref_def to_float quantile_o varpop stddevpop s c es = metric_ref to_float quantile_o varpop stddevpop (norm_script s) c es
+  /\ agg_grouped (norm_script s) = true /\ norm_script (norm_script s) = norm_script s.
+Proof. exact norm_script_facts. Qed.
+Print Assumptions definition_is_reference_of_planned_script.
+
+(* the former witness: sum(rate({a="b"}[5s])) over the streams {a="b",c="1"} and {a="b",c="2"}, one line each in one window, now
+   answers the definition's one series {} with 0.4 (it answered the two streams with 0.2 each), for every oracle *)
+Theorem vector_aggregation_without_grouping_is_one_series :
+  forall re_match parse_float json_get (hash_labels : LogqlSem.labels -> Z),
+  (forall a b, hash_labels a = hash_labels b -> a = b) -> (forall a, 0 <= hash_labels a) ->
+  forall (fp : lmap -> N) to_float quantile_o varpop stddevpop, (forall a b, fp a = fp b -> a = b) ->
+  exists p, plan_metric (norm_script ng_script) true = Some p /\ analyze_m15 ng_script = false /\ script_ok ng_script /\
     db_ok dk_ctx dk_db /\ fp_of_labels_ok dk_db /\ agg_grouped ng_script = false /\
     option_map (map (fun r => (v_labels r, v_ts r, this (v_val r))))
       (option_map (map strip) (sem fp to_float quantile_o varpop stddevpop p dk_ctx (base_of re_match parse_float json_get hash_labels ng_script dk_ctx dk_db)))
-      = Some [([("a", "b"); ("c", "1")]%string, 1700000000000000000, (1 # 5)%Q); ([("a", "b"); ("c", "2")]%string, 1700000000000000000, (1 # 5)%Q)] /\
+      = Some [([], 1700000000000000000, (2 # 5)%Q)] /\
     option_map (map (fun r => (v_labels r, v_ts r, this (v_val r))))
       (metric_ref_def to_float quantile_o varpop stddevpop ng_script dk_ctx
          (map entry_of_out (log_lines re_match parse_float json_get hash_labels ng_script dk_ctx dk_db)))
       = Some [([], 1700000000000000000, (2 # 5)%Q)].
-Proof. exact agg_without_grouping_refuted_proof. Qed.
-Print Assumptions vector_aggregation_without_grouping_refuted.
+Proof. exact ungrouped_sum_is_one_series. Qed.
+Print Assumptions vector_aggregation_without_grouping_is_one_series.
 
 (* the partial statement: for every script whose vector aggregation carries a grouping clause (and every script that has no
    vector aggregation) the reference of the theorems IS the definition, so logql_metric_correct / _from_stored_data are
@@ -383,12 +434,12 @@ Theorem drop_witness_executed :
 Proof. exact exec_drop_witness. Qed.
 Print Assumptions drop_witness_executed.
 
-(* ... and the statement planned for sum(rate({a="b"}[5s])) evaluates to one series per stream: the code's reference, not the
-   definition (exec_verdict_def = 1: finding agg-without-grouping-keeps-streams, replayed by execution) *)
+(* ... and the statement planned for sum(rate({a="b"}[5s])) as the reader hands it over (norm_script) evaluates to the
+   definition's ONE series {} with 0.4 under both tie orders (rounds 1-3: one series per stream, exec_verdict_def = 1) *)
 Theorem agg_without_grouping_executed :
-  exec_verdict tie_id ng_script dk_ctx dk_db = 0 /\ exec_verdict_def tie_id ng_script dk_ctx dk_db = 1 /\
-  option_map (map out_of_row) (exec_rows tie_id ng_script dk_ctx dk_db)
-    = Some [Some ([("a", "b"); ("c", "1")]%string, 1700000000000000000, (1 # 5)%Q); Some ([("a", "b"); ("c", "2")]%string, 1700000000000000000, (1 # 5)%Q)].
+  exec_verdict tie_id (norm_script ng_script) dk_ctx dk_db = 0 /\ exec_verdict tie_rev (norm_script ng_script) dk_ctx dk_db = 0 /\
+  option_map (map out_of_row) (exec_rows tie_id (norm_script ng_script) dk_ctx dk_db) = Some [Some ([], 1700000000000000000, (2 # 5)%Q)] /\
+  option_map (map (fun r => (v_labels r, v_ts r, this (v_val r)))) (ref_rows_def ng_script dk_ctx dk_db) = Some [([], 1700000000000000000, (2 # 5)%Q)].
 Proof. exact exec_agg_without_grouping_witness. Qed.
 Print Assumptions agg_without_grouping_executed.
 
